@@ -242,6 +242,28 @@ def _norm_args(t):
     return tuple(_norm_args(x) for x in t)
 
 
+def _inline_local_helper(prog, t, depth=0):
+    """an index computed by a private helper of the type (`fn offset(&self, row, col) -> usize`): replace the call by the
+    helper's return value with the actual arguments substituted (one level of alternatives; guards in the helper do not matter
+    here, they are checked by the accessor contracts)"""
+    from sa.prov import Resolver
+    if not isinstance(t, tuple) or not t:
+        return t
+    if t[0] == "call" and depth < 3 and t[1].startswith("linalg::naive::dense_matrix::DenseMatrix::<T>::") and t[1] in prog.bodies:
+        hb = prog.bodies[t[1]]
+        ret = Resolver(hb).local(0)
+        actual = t[2]
+
+        def subst(x):
+            if not isinstance(x, tuple) or not x:
+                return x
+            if x[0] == "arg" and isinstance(x[1], int) and 1 <= x[1] <= len(actual):
+                return actual[x[1] - 1]
+            return tuple(subst(y) for y in x)
+        return _inline_local_helper(prog, subst(ret), depth + 1)
+    return tuple(_inline_local_helper(prog, x, depth) if isinstance(x, tuple) else x for x in t)
+
+
 def storage_map(ck, prog):
     from sa.prov import Resolver, render, subterms, alts
     rule = "E6-storage-map"
@@ -261,7 +283,7 @@ def storage_map(ck, prog):
                 while base[0] == "phi":
                     base = base[2][0]
                 if base[0] == "field" and base[2] == "values" and base[1][0] == "arg":
-                    out.append((bb, base[1][1], a1))
+                    out.append((bb, base[1][1], _inline_local_helper(prog, a1)))
         return out
     maps = {}
     for m in ACCESSORS:
